@@ -795,6 +795,24 @@ func buildPoolCalls(rng *Rand) []poolCall {
 			return digestImage(im), func() string { return digestImage(im) }
 		}})
 	}
+	// two larger lossless files (>= 100000 pixels: the decoder's own parallel sections run, so a
+	// decode blocks in wg.Wait and its P picks up another decode that takes the pooled Decoder)
+	for k, sp := range []imgSpec{{400, 300, 1, false, rng.U64()}, {400, 300, 0, true, rng.U64()}} {
+		var fb bytes.Buffer
+		if err := webp.Encode(&fb, genImage(sp), &webp.EncoderOptions{Lossless: true, Quality: 40, Method: 2}); err != nil {
+			continue
+		}
+		data := fb.Bytes()
+		for rep := 0; rep < 2; rep++ { // listed twice: picked twice as often
+			calls = append(calls, poolCall{fmt.Sprintf("DecodeLosslessLarge/%d/%s", k, sp), "DecodeLossless", func() (string, func() string) {
+				im, err := webp.Decode(bytes.NewReader(data))
+				if err != nil {
+					return "err", nil
+				}
+				return digestImage(im), func() string { return digestImage(im) }
+			}})
+		}
+	}
 	return calls
 }
 
